@@ -5,6 +5,7 @@ R2 sign safety of the flag/enum adapters (object path, encode path, plain-data p
 R3 time-zone independent date codecs (shared lint hipposa.tzlint)
 R4 switch fields exist / precede; switch-table keys are enum members
 R5 Block-level cache coherence (Block.__setitem__ / serialize_var)
+R6 pod flag forwarded to delegated decoders / readers
 """
 from __future__ import annotations
 
@@ -832,6 +833,57 @@ def _dict_keys_before(repo: Repo, mod: Module, ci: Optional[ClassInfo], d: ast.D
     return None, None
 
 
+def _flat_keys(repo: Repo, mod: Module, d: ast.Dict, depth=0) -> Optional[List[str]]:
+    """Keys of a dict display in insertion order with `**NAME` spreads of named dict literals expanded."""
+    if depth > 6:
+        return None
+    out: List[str] = []
+    for k, v in zip(d.keys, d.values):
+        if k is None:
+            tgt, tmod = _deref(repo, mod, None, v)
+            if not isinstance(tgt, ast.Dict):
+                return None
+            sub = _flat_keys(repo, tmod, tgt, depth + 1)
+            if sub is None:
+                return None
+            out += [x for x in sub if x not in out]
+        elif isinstance(k, ast.Constant) and isinstance(k.value, str):
+            if k.value not in out:
+                out.append(k.value)
+        else:
+            return None
+    return out
+
+
+def _merged_befores(repo: Repo, mod: Module, container: ast.Dict, key: str, depth=0) -> Optional[List[List[str]]]:
+    """When `container` is a module-level named dict literal that is spread (`**NAME`) into other dict displays of
+    the module: for every outermost merged dict, the keys that precede `key` there.  None when the container is
+    not spread anywhere (it is a template of its own)."""
+    p = parent(container)
+    if not (isinstance(p, (ast.Assign, ast.AnnAssign)) and isinstance(parent(p), ast.Module)):
+        return None
+    targets = p.targets if isinstance(p, ast.Assign) else [p.target]
+    names = [t.id for t in targets if isinstance(t, ast.Name)]
+    if len(names) != 1 or depth > 4:
+        return None
+    name = names[0]
+    users = [d for d in walk(mod.tree, into_defs=True) if isinstance(d, ast.Dict) and
+             any(k is None and isinstance(v, ast.Name) and v.id == name for k, v in zip(d.keys, d.values))]
+    if not users:
+        return None
+    out: List[List[str]] = []
+    for u in users:
+        outer = _merged_befores(repo, mod, u, key, depth + 1)
+        if outer is not None:
+            out += outer
+            continue
+        keys = _flat_keys(repo, mod, u)
+        if keys is None or key not in keys:
+            raise AnalysisError(f"C09.R4: {mod.rel}:{u.lineno} merged template dict not analysable")
+        out.append(keys[:keys.index(key)])
+    return out
+
+
 def _enclosing_class(node) -> Optional[ast.ClassDef]:
     for a in ancestors(node):
         if isinstance(a, ast.ClassDef):
@@ -1003,6 +1055,17 @@ def r4(ctx, regs: List[Reg], tmpl):
                 key, before = _dict_keys_before(repo, mod, encl_ci, container, c)
                 if key is None:
                     raise AnalysisError(f"C09.R4: {where} enclosing template dict of {norm(c)} not analysable")
+                # a section table that is merged into larger template dicts (`{**HEADER, **SECTION, ...}`): the
+                # keys parsed before `key` are those of the merged dict, in merge order
+                merged = _merged_befores(repo, mod, container, key)
+                if merged is not None:
+                    ok_all = all(field in lst for lst in merged)
+                    shown = merged[0] if merged else []
+                    ctx.ob("C09.R4", f"{mod.name.split('.')[-1]}: {key!r}: {ci.name} field {field!r} precedes it in its "
+                                     f"template", ok_all, where,
+                           f"{kind} field {field!r} is read from the values parsed so far; keys before {key!r} in the "
+                           f"merged template: {shown[-8:]}")
+                    continue
                 ctx.ob("C09.R4", f"{mod.name.split('.')[-1]}: {key!r}: {ci.name} field {field!r} precedes it in its "
                                  f"template", field in before, where,
                        f"{kind} field {field!r} is read from the values parsed so far; keys before {key!r}: {before[-8:]}")
@@ -1181,6 +1244,56 @@ def r5(ctx):
         ctx.note("C09.R5: Block.serialize_var does not fill the cache (only a performance loss)")
 
 
+# ------------------------------------------------------------------------------------------ R6
+
+_POD_DELEGATES = ("decode", "deserialize", "_deserialize_template", "_try_all_templates")
+_POD_READERS = ("BufferReader", "FHReader")
+
+
+def r6(ctx):
+    """Plain-data form: a decoder that is asked for the pod form and delegates to another decoder (wrapped
+    adapter, chosen option, template reader) must hand the pod flag on, otherwise the inner value comes back
+    in object form inside a plain-data result."""
+    repo = ctx.repo
+    ctx.rule("C09.R6", "pod flag forwarded: every decode/deserialize with a `pod` parameter passes it to the "
+                       "decoder / reader it delegates to")
+    n = 0
+    for f in repo.all_funcs:
+        if f.parent_fn is not None or not f.module.rel.startswith("hippolyzer/lib/base/"):
+            continue
+        a = f.node.args
+        params = [x.arg for x in a.args + a.kwonlyargs + a.posonlyargs]
+        if "pod" not in params:
+            continue
+        ctx_params = {p for p in params if p in ("ctx", "ctx_obj")}
+        for c in calls(f.node, into_defs=True):
+            last = c.func.attr if isinstance(c.func, ast.Attribute) else (c.func.id if isinstance(c.func, ast.Name) else None)
+            if last in _POD_DELEGATES:
+                if last == "decode":
+                    passes_ctx = kw(c, "ctx") is not None or any(
+                        isinstance(x, ast.Name) and x.id in ctx_params for arg in c.args for x in ast.walk(arg))
+                    if not passes_ctx:
+                        continue        # bytes.decode(...) and the like
+            elif last not in _POD_READERS:
+                continue
+            if any(k.arg is None for k in c.keywords):
+                continue                # **kwargs pass-through: not decidable here
+            n += 1
+            vals = list(c.args) + [k.value for k in c.keywords]
+            podnames = {"pod"} | {s_.path for s_ in stores(f.node, into_defs=True)
+                                  if s_.kind == "assign" and s_.value is not None and "." not in s_.path
+                                  and any(isinstance(x, ast.Name) and x.id == "pod" for x in ast.walk(s_.value))}
+            ok = any(isinstance(x, ast.Name) and x.id in podnames for v in vals for x in ast.walk(v))
+            pk = kw(c, "pod")
+            if not ok and isinstance(pk, ast.Constant) and isinstance(pk.value, bool):
+                # `if pod: ... decode(..., pod=True)`: the constant agrees with a dominating test of pod
+                ok = any(ap(e) == "pod" and pol == pk.value for e, pol in facts(c, f.node))
+            ctx.ob("C09.R6", f"{f.qual}: {ap(c.func) or last}(...) receives pod", ok, ctx.w(f, c),
+                   f"`{norm(c)}` drops the pod flag: the delegated decoder answers in object form (enum members, "
+                   f"dataclasses) although plain data was asked for, so the printed form no longer evaluates back")
+    ctx.floor("C09.R6", "pod delegation sites", n, 8)
+
+
 # ------------------------------------------------------------------------------------------ driver
 
 def run(ctx):
@@ -1193,6 +1306,7 @@ def run(ctx):
     r3(ctx)
     r4(ctx, regs, tmpl)
     r5(ctx)
+    r6(ctx)
     ctx.assume("byte-for-byte fixed points of the ~200 serializers on generated payloads and the 'printed form "
                "evaluates back' clause are not decided statically")
     ctx.assume("Python semantics encoded: enum.IntFlag(negative) / IntFlag.__or__ are not value preserving on "
